@@ -3,4 +3,7 @@ NEXT INext
 PROPERTY RestoreReinstates
 PROPERTY NewerForeignStays
 PROPERTY InstallIdempotent
+PROPERTY KillIsLocal
+PROPERTY LastInstalledReceives
+INVARIANT ActiveIsAlive
 CHECK_DEADLOCK FALSE
